@@ -76,6 +76,8 @@ pub struct LinkOcc {
     pub top: bool,
     /// char span of the visible text inside the atom's `text`
     pub span: (usize, usize),
+    /// the link's text shows an image (a thumbnail that leads somewhere)
+    pub holds_image: bool,
 }
 
 #[derive(Clone, Debug)]
@@ -456,6 +458,7 @@ pub fn scan(src: &str) -> Scan {
                         range: range.clone(),
                         atom: 0,
                         block_ref: false,
+                        holds_image: false,
                         nested: !link_stack.is_empty(),
                         top: inline_depth == 1,
                         span: (at, at),
@@ -474,6 +477,9 @@ pub fn scan(src: &str) -> Scan {
                     let o = open.as_mut().unwrap();
                     let idx = out.links.len();
                     let at = o.atom.text.chars().count();
+                    for &enclosing in &link_stack {
+                        out.links[enclosing].holds_image = true;
+                    }
                     out.links.push(LinkOcc {
                         kind: LKind::Image,
                         dest: dest_url.to_string(),
@@ -482,6 +488,7 @@ pub fn scan(src: &str) -> Scan {
                         range: range.clone(),
                         atom: 0,
                         block_ref: false,
+                        holds_image: false,
                         nested: !link_stack.is_empty(),
                         top: inline_depth == 1,
                         span: (at, at),
@@ -626,11 +633,14 @@ pub fn dest(d: &str) -> String {
 
 /// a destination inside the library: no scheme ("https:", "mailto:", "file:", "zotero:" ...) and not an absolute path
 pub fn is_internal(dest: &str) -> bool {
-    if dest.starts_with('/') {
+    // (nor one that names no file at all: nothing, a directory, or just the way to one)
+    // (nor a place inside the note itself: "#summary")
+    if dest.starts_with('/') || dest.ends_with('/') || dest.chars().all(|c| c == '.' || c == '/') || dest.starts_with('#') || dest.starts_with('?') {
         return false;
     }
     match dest.find(':') {
-        Some(n) if n > 1 => {
+        // (what holds white space is no address: a note called "Re: budget")
+        Some(n) if n > 1 && !dest.contains(char::is_whitespace) => {
             let scheme = &dest[..n];
             let first = scheme.chars().next().unwrap();
             !(first.is_ascii_alphabetic() && scheme.chars().all(|c| c.is_ascii_alphanumeric() || c == '+' || c == '-' || c == '.'))
